@@ -5,8 +5,15 @@ returns exactly the reachable set.
 For restrictions that depend only on the edge (`valid_eq : I.valid e st le = .ok (ok e)`), every
 heuristic that is a function of the vertex (any weight factor), every schedule.  The termination
 model is only required never to answer "no path" itself (it answers `terminated`).
+
+The `_on` theorems take the premises only on the calls the search really makes and only of calls
+that answer (`UniformCostOn`, `VertexHOn`; no component may answer "no path" itself,
+`NoSpuriousNoPath`); the `config_…` theorems discharge all of them for every edge-local concrete
+configuration (`Config.EdgeLocal`), at the level of `Config.runVertex`, for any weight factor.
 -/
 import Compass.Proofs.SearchOpt
+import Compass.Proofs.ConfigUniform
+import Compass.Proofs.ConfigProgress
 
 namespace Compass
 namespace C05
@@ -60,6 +67,138 @@ theorem tree_labels_least_cost {I : Inst α} {ok : Nat → Bool} {c : Nat → α
 
 example : runAStar Example.exInst 0 (some 7) [0, 1, 2, 3] = .error .noPath := Example.ex_run_nopath
 example : ∃ s, runAStar Example.exInst 0 (some 3) [0, 1, 2, 3] = .ok s ∧ s.g 3 = some 3 := Example.ex_run_ok
+
+/-! ### The same with the premises restricted to the calls the search makes -/
+
+/-- result ⇔ reachable and "no path" ⇔ unreachable, premises only on the pairs satisfying `S` -/
+theorem result_iff_reachable_on {I : Inst α} {S : Option Nat → List α → Prop} {ok : Nat → Bool}
+    {c hv : Nat → α} (U : UniformCostOn I S ok c) (hh : VertexHOn I S hv)
+    (hyg : NoSpuriousNoPath I) {source t : Nat} {sched : List Nat}
+    (hres : (∃ s, runAStar I source (some t) sched = .ok s) ∨
+      runAStar I source (some t) sched = .error .noPath) :
+    ((∃ s, runAStar I source (some t) sched = .ok s) ↔ ∃ es, Walk I ok source es t) ∧
+    (runAStar I source (some t) sched = .error .noPath ↔ ¬ ∃ es, Walk I ok source es t) :=
+  ⟨ok_iff_reachable_on U hh hyg hres, nopath_iff_unreachable_on U hh hyg hres⟩
+
+/-- destination-less search: labelled = reachable, each label the least cost -/
+theorem tree_is_reachable_set_on {I : Inst α} {S : Option Nat → List α → Prop} {ok : Nat → Bool}
+    {c : Nat → α} (U : UniformCostOn I S ok c) {source : Nat} {sched : List Nat} {s : SState α}
+    (hrun : runAStar I source none sched = .ok s) (v : Nat) :
+    ((∃ x, s.g v = some x) ↔ ∃ es, Walk I ok source es v) ∧
+    ∀ x, s.g v = some x →
+      (∃ es, Walk I ok source es v ∧ cost c es = x) ∧ ∀ es, Walk I ok source es v → x ≤ cost c es :=
+  ⟨tree_eq_reachable_on U hrun v, fun x hx => tree_labels_optimal_on U hrun v x hx⟩
+
+/-! ### Concrete configurations -/
+
+/-- no component of a configuration's instance answers "no path" itself -/
+theorem config_no_spurious_nopath (c : Config α) : NoSpuriousNoPath c.inst :=
+  c.noSpuriousNoPath
+
+/-- **C05 on a concrete configuration**: for every edge-local configuration, any weight factor,
+termination model and schedule, among the outcomes "a result" and "no path" `Config.runVertex`
+answers "no path" exactly when the destination is unreachable through permitted edges -/
+theorem config_nopath_iff_unreachable (c : Config α) (h : c.EdgeLocal) {source t : Nat}
+    {sched : List Nat}
+    (hres : (∃ r, c.runVertex source (some t) sched = .ok r) ∨
+      c.runVertex source (some t) sched = .error .noPath) :
+    (c.runVertex source (some t) sched = .error .noPath ↔
+        ¬ ∃ es, Walk c.inst c.okOf source es t) ∧
+    ((∃ r, c.runVertex source (some t) sched = .ok r) ↔ ∃ es, Walk c.inst c.okOf source es t) :=
+  _root_.Compass.config_nopath_iff_unreachable c h hres
+
+/-- the two implications, without the premise on the outcome -/
+theorem config_nopath_implies_unreachable (c : Config α) (h : c.EdgeLocal) {source t : Nat}
+    {sched : List Nat} (hrun : c.runVertex source (some t) sched = .error .noPath) :
+    ¬ ∃ es, Walk c.inst c.okOf source es t :=
+  _root_.Compass.config_nopath_implies_unreachable c h hrun
+
+theorem config_result_implies_reachable (c : Config α) (h : c.EdgeLocal) {source t : Nat}
+    {sched : List Nat} {r : AlgResult α} (hrun : c.runVertex source (some t) sched = .ok r) :
+    ∃ es, Walk c.inst c.okOf source es t :=
+  _root_.Compass.config_result_implies_reachable c h hrun
+
+/-- destination-less search on a concrete configuration: the tree holds exactly the reachable
+vertices, and the parent chain of each is a valid walk of least summed cost -/
+theorem config_tree_reachable_least_cost (c : Config α) (h : c.EdgeLocal) {source : Nat}
+    {sched : List Nat} {r : AlgResult α} (hrun : c.runVertex source none sched = .ok r) :
+    ∃ tree, r.trees = [tree] ∧
+      (∀ v, (v = source ∨ (tree v).isSome) ↔ ∃ es, Walk c.inst c.okOf source es v) ∧
+      ∀ v path, SearchTree.PathTo source tree v path →
+        Walk c.inst c.okOf source (path.map (·.edge)) v ∧
+        (path.map (fun b => b.access + b.traversal)).sum = cost c.costOf (path.map (·.edge)) ∧
+        ∀ es, Walk c.inst c.okOf source es v →
+          (path.map (fun b => b.access + b.traversal)).sum ≤ cost c.costOf es :=
+  _root_.Compass.config_tree_reachable_least_cost c h hrun
+
+/-- the premise "among the outcomes result / no path" excludes nothing but terminations: on a
+well-formed configuration (distance model: the distance feature exists, the cost vectors cover the
+features, no frontier model errs on a graph edge, listed edge ids are graph edges, the great-circle
+table covers the vertices) a run returns a result or ends in "no path", the explicit termination
+(or the zero-frequency panic of the runtime limit) or one of the two schedule-replay errors of the
+model — never in a network / frontier / traversal / access / cost / state / internal error.  This is
+where the state invariant "one slot per feature, last edge in the graph" is needed. -/
+theorem config_run_result_or_benign (c : Config α) {du : DistanceUnit}
+    (W : c.WellFormedDistance du) {source : Nat} {target : Option Nat}
+    (G : c.GraphOK source target.isSome) (sched : List Nat) (k : ErrKind)
+    (h : c.runVertex source target sched = .error k) :
+    k = .noPath ∨ (∃ ks, k = .terminated ks) ∨ k = .panic "termination-frequency-zero" ∨
+      k = .badSchedule ∨ k = .scheduleExhausted :=
+  config_run_benign c W G sched k h
+
+/-- the total form of the premises (what DESIGN §5 C02 calls `StateIndep`): on a well-formed
+configuration, from every (last edge, state) pair with one slot per feature and a graph edge as last
+edge, the frontier models answer `okOf` and the traversal answers, charges `costOf` and passes the
+invariant on -/
+theorem config_calls_answer (c : Config α) {du : DistanceUnit} (W : c.WellFormedDistance du)
+    {e : Nat} (he : e < c.edges.length) {le : Option Nat} {st : List α} (hS : c.StateOK le st) :
+    c.inst.valid e st le = .ok (c.okOf e) ∧
+    ∃ ac tc st', c.inst.trav e le st = .ok (ac, tc, st') ∧ ac + tc = c.costOf e ∧
+      c.StateOK (some e) st' :=
+  ⟨c.valid_total W he le st, c.trav_total W he hS⟩
+
+/-! ### Non-vacuity on a concrete configuration: the isolated vertex 4 of `exC` gives "no path",
+vertex 3 a result, and the theorem turns each into the (un)reachability statement -/
+
+section
+open ConfigUniform.Example SearchRoute.Example
+
+example : ¬ ∃ es, Walk exC.inst exC.okOf 0 es 4 :=
+  config_nopath_implies_unreachable exC exC_edgeLocal exC_nopath
+
+example : ∃ es, Walk exC.inst exC.okOf 0 es 3 := by
+  obtain ⟨r, hr⟩ := ok_of_routeEdgesOf exC_run
+  exact ((config_nopath_iff_unreachable exC exC_edgeLocal (Or.inl ⟨r, hr⟩)).2).1 ⟨r, hr⟩
+
+/-- destination-less run on `exC`: vertices 0–3 are in the tree (or the source), 4 is not -/
+example : ∃ r tree, exC.runVertex 0 none [0, 1, 2, 3] = .ok r ∧ r.trees = [tree] ∧
+    (tree 3).isSome ∧ (tree 4).isNone ∧ ¬ ∃ es, Walk exC.inst exC.okOf 0 es 4 := by
+  have hobs : treeEntriesOf (exC.runVertex 0 none [0, 1, 2, 3]) [3, 4] = some [[some (1, 7), none]] := by
+    decide +kernel
+  cases hr : exC.runVertex 0 none [0, 1, 2, 3] with
+  | error k => rw [hr] at hobs; simp [treeEntriesOf] at hobs
+  | ok r =>
+    obtain ⟨tree, ht, hreach, _⟩ := config_tree_reachable_least_cost exC exC_edgeLocal hr
+    rw [hr] at hobs
+    simp only [treeEntriesOf, ht, List.map_cons, List.map_nil, Option.some.injEq, List.cons.injEq,
+      and_true] at hobs
+    have h3 : (tree 3).isSome := by
+      cases h : tree 3 <;> simp [h] at hobs ⊢
+    have h4 : tree 4 = none := by
+      cases h : tree 4 <;> simp [h] at hobs ⊢
+    refine ⟨r, tree, rfl, ht, h3, by simp [h4], ?_⟩
+    intro hex
+    have := (hreach 4).2 hex
+    simp [h4] at this
+
+/-- `exC` is well formed: whatever the schedule, a run from vertex 0 returns or ends benignly -/
+example (target : Option Nat) (sched : List Nat) (k : ErrKind)
+    (h : exC.runVertex 0 target sched = .error k) :
+    k = .noPath ∨ (∃ ks, k = .terminated ks) ∨ k = .panic "termination-frequency-zero" ∨
+      k = .badSchedule ∨ k = .scheduleExhausted :=
+  config_run_result_or_benign exC exC_wellFormed (exC_graphOK 0 (by decide) _) sched k h
+
+end
 
 end C05
 end Compass
